@@ -950,6 +950,123 @@ theorem constructor_frames_roundtrip {g : Geom} (hg : Admissible g) (nonempty : 
     rw [e1, e2]
     omega
 
+/-- **Write → read of the constructor's frames for an array aligned to source planes given in ANY order (clause 1b,
+composed).**  Source planes at `base + (e·sp)·n`, the multiples `allEs` pairwise different and filling an interval, in any
+order; any emptiness pattern, `omit_empty_frames` on or off, one pass of the loop (label map, or one segment with skipped
+frames): the frames the loop stores are read back so that frame `i` fills slot `e_i − min e`, every voxel of the slot lies
+at the SOURCE position of the frame's plane, and slots come in the order of the DimensionIndexValues. -/
+theorem aligned_frames_roundtrip (rowCos colCos base : V3) (psRow psCol sp : Rat) (hsp : 0 < sp)
+    (hn : dot (normal rowCos colCos) (normal rowCos colCos) = 1) (horth : dot colCos rowCos = 0)
+    (hpr : 0 < psRow) (hpc : 0 < psCol) (allEs : List Int) (emin emax : Int)
+    (hemin : emin ∈ allEs) (hemax : emax ∈ allEs) (hb : ∀ e ∈ allEs, emin ≤ e ∧ e ≤ emax)
+    (hcomplete : ∀ z, emin ≤ z → z ≤ emax → z ∈ allEs) (hlt : emin < emax) (hnodup : allEs.Nodup)
+    (srcHint : Option Rat) (hsrc : srcHint = none ∨ srcHint = some sp)
+    (nonempty : List Bool) (hlen : nonempty.length = allEs.length) (om : Bool) (s : Option Nat)
+    (present : Option Nat → Nat → Bool) (rows cols : Int) (hr : 1 ≤ rows) (hc : 1 ≤ cols) :
+    ∃ frames, segFrames (allEs.map (linePos (normal rowCos colCos) base sp)) rowCos colCos nonempty om [s] present = .ok frames ∧
+      (frames ≠ [] → ∃ st out keptEs, ∃ kmin : Int,
+        (frames.map (fun f => f.plane)).mapM (fun k => allEs[k]?) = some keptEs ∧
+        storeAligned rowCos colCos psRow psCol srcHint (allEs.map (linePos (normal rowCos colCos) base sp))
+          (frames.map (fun f => f.plane)) = .ok st ∧ st.hint = some sp ∧
+        getVolumeStack .seg st rows cols true ({} : Request) = .ok out ∧
+        (∀ i (hi : i < keptEs.length), (i, keptEs[i] - kmin) ∈ out.frames ∧
+          ∀ r c : Int, out.aff.apply (keptEs[i] - kmin) r c
+            = add (add (linePos (normal rowCos colCos) base sp keptEs[i]) (smul ((r : Rat) * psRow) colCos))
+                (smul ((c : Rat) * psCol) rowCos)) ∧
+        (∀ i j (hi : i < frames.length) (hj : j < frames.length) (hi' : i < keptEs.length) (hj' : j < keptEs.length),
+          frames[i].div < frames[j].div ↔ keptEs[i] - kmin < keptEs[j] - kmin)) := by
+  set P : Nat → V3 := fun k => linePos (normal rowCos colCos) base sp (allEs.getD k 0) with hP
+  have hpos : allEs.map (linePos (normal rowCos colCos) base sp) = (List.range nonempty.length).map P := by
+    rw [hlen]
+    have := map_range_getD allEs 0
+    conv_lhs => rw [← this]
+    rw [List.map_map]
+    rfl
+  have hget : ∀ k, k < allEs.length → allEs.getD k 0 = allEs[k]! := by
+    intro k hk; simp [List.getD_eq_getElem?_getD, hk]
+  have hinj : ∀ a < nonempty.length, ∀ b < nonempty.length, distOf P rowCos colCos a = distOf P rowCos colCos b → a = b := by
+    intro a ha b hb' h
+    have he := linePos_inj (normal rowCos colCos) base sp hsp hn _ _ h
+    rw [hlen] at ha hb'
+    rw [List.getD_eq_getElem?_getD, List.getD_eq_getElem?_getD, List.getElem?_eq_getElem ha, List.getElem?_eq_getElem hb'] at he
+    simp only [Option.getD_some] at he
+    exact (List.Nodup.getElem_inj_iff hnodup).mp he
+  obtain ⟨frames, hok, hmem⟩ := mem_segFrames P rowCos colCos nonempty hinj om [s] present
+  rw [← hpos] at hok
+  refine ⟨frames, hok, ?_⟩
+  intro hne
+  -- the planes of the frames are pairwise different kept planes below the number of sources
+  have hdist := frames_distinct P rowCos colCos nonempty hinj om [s] (by simp) present frames (by rw [← hpos]; exact hok)
+  have hbound : ∀ f ∈ frames, f.plane < allEs.length := by
+    intro f hf
+    rw [← hlen]
+    exact keptPlanes_bound nonempty om f.plane ((hmem f).mp hf).2.1
+  have hseg : ∀ f ∈ frames, f.seg = s := by
+    intro f hf
+    simpa using ((hmem f).mp hf).1
+  have hplanes : (frames.map (fun f => f.plane)).Nodup := by
+    rw [List.Nodup, List.pairwise_map]
+    apply hdist.imp_of_mem
+    intro a b ha hb' hab
+    rcases hab with hab | hab
+    · exact absurd ((hseg a ha).trans (hseg b hb').symm) hab
+    · exact hab
+  have hkept : (frames.map (fun f => f.plane)).mapM (fun k => allEs[k]?) = some (frames.map (fun f => allEs.getD f.plane 0)) := by
+    have : ∀ (l : List Frame), (∀ f ∈ l, f.plane < allEs.length) →
+        (l.map (fun f => f.plane)).mapM (fun k => allEs[k]?) = some (l.map (fun f => allEs.getD f.plane 0)) := by
+      intro l hl
+      induction l with
+      | nil => rfl
+      | cons a t ih =>
+        have ha := hl a List.mem_cons_self
+        rw [List.map_cons, List.mapM_cons, ih (fun f hf => hl f (List.mem_cons_of_mem _ hf)), List.getElem?_eq_getElem ha]
+        simp [List.getD_eq_getElem?_getD, ha]
+    exact this frames hbound
+  set keptEs := frames.map (fun f => allEs.getD f.plane 0) with hkE
+  have hkne : keptEs ≠ [] := by simpa [hkE] using hne
+  have hkn : keptEs.Nodup := by
+    rw [hkE, List.Nodup, List.pairwise_map]
+    rw [List.Nodup, List.pairwise_map] at hplanes
+    apply hplanes.imp_of_mem
+    intro a b ha hb' hab heq
+    apply hab
+    have h1 := hbound a ha
+    have h2 := hbound b hb'
+    rw [List.getD_eq_getElem?_getD, List.getD_eq_getElem?_getD, List.getElem?_eq_getElem h1, List.getElem?_eq_getElem h2] at heq
+    simp only [Option.getD_some] at heq
+    exact (List.Nodup.getElem_inj_iff hnodup).mp heq
+  obtain ⟨st, hst, hhint, kmin, _, kmax, _, _, out, hout, _, hfr, happ⟩ :=
+    aligned_sources_roundtrip rowCos colCos base psRow psCol sp hsp hn horth hpr hpc allEs emin emax hemin hemax hb hcomplete hlt
+      hnodup srcHint hsrc (frames.map (fun f => f.plane)) keptEs hkept hkne hkn rows cols hr hc
+  refine ⟨st, out, keptEs, kmin, hkept, hst, hhint, hout, ?_, ?_⟩
+  · intro i hi
+    refine ⟨?_, happ i hi⟩
+    rw [hfr, List.mem_map]
+    exact ⟨(keptEs[i], i), List.mem_zipIdx_iff_getElem?.mpr (by simp [hi]), rfl⟩
+  · intro i j hi hj hi' hj'
+    have hdl := div_lt_iff P rowCos colCos nonempty hinj om [s] present frames (by rw [← hpos]; exact hok) frames[i] frames[j]
+      (List.getElem_mem hi) (List.getElem_mem hj)
+    rw [hdl]
+    have e1 : keptEs[i] = allEs.getD frames[i].plane 0 := by simp [hkE]
+    have e2 : keptEs[j] = allEs.getD frames[j].plane 0 := by simp [hkE]
+    unfold distOf
+    rw [hP]
+    simp only
+    rw [dot_linePos _ _ _ _ hn, dot_linePos _ _ _ _ hn, e1, e2]
+    constructor
+    · intro h
+      have : ((allEs.getD frames[i].plane 0 : Int) : Rat) < ((allEs.getD frames[j].plane 0 : Int) : Rat) := by
+        by_contra hc'
+        have := mul_le_mul_of_nonneg_right (not_lt.mp hc') (le_of_lt hsp)
+        linarith
+      have : allEs.getD frames[i].plane 0 < allEs.getD frames[j].plane 0 := by exact_mod_cast this
+      omega
+    · intro h
+      have h' : allEs.getD frames[i].plane 0 < allEs.getD frames[j].plane 0 := by omega
+      have : ((allEs.getD frames[i].plane 0 : Int) : Rat) < ((allEs.getD frames[j].plane 0 : Int) : Rat) := by exact_mod_cast h'
+      have := mul_lt_mul_of_pos_right this hsp
+      linarith
+
 /-- **Handedness and the stored order**: for a volume the dimension index values ascend with the plane index when the
 volume is right-handed and descend when it is left-handed (the mirror image along the stacking axis is already in the
 stored order). -/
@@ -1270,5 +1387,7 @@ example : (tileFrames ⟨10, 20, 0⟩ ⟨0, -1, 0⟩ ⟨-1, 0, 0⟩ (1 / 2) (1 /
 example : volumeGeometryTiled ⟨10, 20, 0⟩ ⟨0, -1, 0⟩ ⟨-1, 0, 0⟩ (1 / 2) (1 / 4) none
     = .ok ⟨⟨0, 0, 1⟩, ⟨-1 / 2, 0, 0⟩, ⟨0, -1 / 4, 0⟩, ⟨10, 20, 0⟩⟩ := by
   norm_num [volumeGeometryTiled, defaultSpacing, fromAttributes, orthogonalCols, normal, cross, smul, dot, rabs, tolEq]
+
+example : ([true, false, true, true] : List Bool).length = ([2, 0, 1, 3] : List Int).length := rfl
 
 end HdVerif.C03
